@@ -2,7 +2,9 @@
   Props/C17.lean — materialization boundaries are transparent.
 -/
 import DxModel.Cut
+import DxModel.Lemmas.Boundary
 namespace Dx
+open Boundary
 
 /-- Re-importing an opaque graph under new output keys (`FromGraph`): partition `i` of the imported
     collection is the value of `keys[i]` in the original graph — for every graph, key list and `i`. -/
@@ -51,6 +53,423 @@ example : CutOK lower upper := by
   · intro k t hk d hd; cases k with
     | zero => simp [lower] at hk; subst hk; simp [Tsk.refs] at hd
     | succ k => simp [lower] at hk
+end C17Example
+
+/-! ## The boundary constructs of /repo (Layers/Boundary.lean) -/
+
+/-! ### (a) `from_delayed(to_delayed(x))` -/
+
+/-- `optimize_graph=True` only culls: every kept key has the value it has in the whole graph
+    (any kept set that contains the requested keys and is closed under references). -/
+theorem C17_cull_preserves {κ} (I : Interp) (G : Graph κ) (keep : κ → Bool) (roots : List κ)
+    (inp : κ → Option V) (h : CullOK G keep roots) (n : Nat) (k : κ) (hk : keep k = true) :
+    run I (cull G keep) inp n k = run I G inp n k :=
+  run_cull I G keep roots inp h n k hk
+
+/-- the checker run by the driver on the real culled key set is sound for `CullOK` -/
+theorem C17_cullCheck_sound (l : List (Nat × List Nat)) (kept roots : List Nat)
+    (h : cullCheck l kept roots = true) :
+    CullOK (listingGraph l) (fun k => kept.contains k) roots :=
+  cullCheck_sound l kept roots h
+
+example : cullCheck [(0, []), (1, [0]), (2, [0]), (3, [2])] (reachable [(0, []), (1, [0]), (2, [0]), (3, [2])] [3]) [3] = true ∧
+    reachable [(0, []), (1, [0]), (2, [0]), (3, [2])] [3] = [3, 2, 0] := by decide
+
+/-- **FromDelayed**: for Delayed objects that share one acyclic graph `G` (what `to_delayed` returns), any
+    `_partitions` selection, any divisions operand: output partition `i` of the merged graph
+    (`FromDelayed._layer` + every `_DelayedExpr._layer`, merged by `toolz.merge` after the `seen` walk) is the
+    `verify_meta` wrapper applied to the value the selected Delayed's key has in `G`. -/
+theorem C17_fromDelayed_value {κ} [DecidableEq κ] (I : Interp) (ok : V → Bool) (hI : BoundaryInterp I ok)
+    (e : FromDelayed κ) (G : Graph κ) (hG : ∀ d ∈ e.dfs, d.graph = G) (rank : κ → Nat) (hr : Ranked G rank)
+    (inp : κ → Option V) (i p : Nat) (d : Delayed κ) (hi : e.sel[i]? = some p) (hp : e.dfs[p]? = some d)
+    (hdef : (G d.key).isSome) (n : Nat) :
+    run I e.graph (liftB inp) (n+2) (.out i) = wrapSpec ok e.verifyMeta (run I G inp (n+1) d.key) := by
+  rw [run_fromDelayed_out e G hG I rank hr inp i p d hi hp hdef n]
+  cases hv : e.verifyMeta
+  · simp [wrapCode, wrapSpec, hI.identity]
+  · simp [wrapCode, wrapSpec, hI.check]
+
+/-- **`from_delayed(x.to_delayed(optimize_graph=b), divisions=…, verify_meta=…)`**, `G` the graph of
+    `x.optimize()` (the expression `to_delayed` converts, for BOTH values of `optimize_graph`), any number `n` of
+    partitions, any acyclic `G`, both `optimize_graph` variants, divisions given or not, verification on or off:
+    partition `i` of the new collection is (the `verify_meta` wrapper of) partition `i` of `x.optimize()`. -/
+theorem C17_delayed_roundtrip {κ} [DecidableEq κ] (I : Interp) (ok : V → Bool) (hI : BoundaryInterp I ok)
+    (G : Graph κ) (rank : κ → Nat) (hr : Ranked G rank) (out : Nat → κ) (n : Nat)
+    (optimizeGraph : Bool) (keep : κ → Bool) (hc : CullOK G keep ((List.range n).map out))
+    (a : DivArg) (verify : Bool) (e : FromDelayed κ)
+    (he : fromDelayed (toDelayed G out n optimizeGraph keep) a verify = .ok e)
+    (inp : κ → Option V) (i : Nat) (hi : i < n) (hdef : (G (out i)).isSome) (fuel : Nat) :
+    run I e.graph (liftB inp) (fuel+2) (.out i) = wrapSpec ok verify (run I G inp (fuel+1) (out i)) := by
+  obtain ⟨_, hdfs, hver, _, _⟩ := fromDelayed_ok _ a verify e he
+  have hsel : e.sel[i]? = some i := by
+    rw [fromDelayed_sel _ a verify e he, toDelayed_length]
+    simp [hi]
+  have hp : e.dfs[i]? = some { key := out i, graph := if optimizeGraph then cull G keep else G } := by
+    rw [hdfs]; exact toDelayed_get G out n optimizeGraph keep i hi
+  have hG : ∀ d ∈ e.dfs, d.graph = (if optimizeGraph then cull G keep else G) := by
+    rw [hdfs]; exact toDelayed_graph G out n optimizeGraph keep
+  have hkeep : keep (out i) = true := hc.roots_kept (out i) (List.mem_map.mpr ⟨i, by simpa using hi, rfl⟩)
+  cases optimizeGraph with
+  | false =>
+    have := C17_fromDelayed_value I ok hI e G (by simpa using hG) rank hr inp i i _ hsel hp hdef fuel
+    rw [this, hver]
+  | true =>
+    have hdef' : (cull G keep (out i)).isSome := by simpa [cull, hkeep] using hdef
+    have := C17_fromDelayed_value I ok hI e (cull G keep) (by simpa using hG) rank (ranked_cull G keep rank hr)
+      inp i i _ hsel hp hdef' fuel
+    rw [this, hver]
+    simp only []
+    rw [run_cull I G keep _ inp hc (fuel+1) (out i) hkeep]
+
+/-- the same, relative to the query the user wrote: `to_delayed` converts `x.optimize()`; that the optimised
+    (and fused) plan computes the same partition values as the plan of `x` is the conclusion of
+    `C01_optimize_sound` (logical + lowering rules) and `C14_task` (blockwise fusion) — an explicit hypothesis here. -/
+theorem C17_delayed_roundtrip_of_user_query {κ κx} [DecidableEq κ] (I : Interp) (ok : V → Bool)
+    (hI : BoundaryInterp I ok) (G : Graph κ) (rank : κ → Nat) (hr : Ranked G rank) (out : Nat → κ) (n : Nat)
+    (optimizeGraph : Bool) (keep : κ → Bool) (hc : CullOK G keep ((List.range n).map out))
+    (a : DivArg) (verify : Bool) (e : FromDelayed κ)
+    (he : fromDelayed (toDelayed G out n optimizeGraph keep) a verify = .ok e)
+    (inp : κ → Option V) (fuel : Nat)
+    (Gx : Graph κx) (outx : Nat → κx) (inpx : κx → Option V) (fuelx : Nat)
+    (hopt : ∀ i, i < n → run I G inp (fuel+1) (out i) = run I Gx inpx fuelx (outx i))
+    (i : Nat) (hi : i < n) (hdef : (G (out i)).isSome) :
+    run I e.graph (liftB inp) (fuel+2) (.out i) = wrapSpec ok verify (run I Gx inpx fuelx (outx i)) := by
+  rw [C17_delayed_roundtrip I ok hI G rank hr out n optimizeGraph keep hc a verify e he inp i hi hdef fuel,
+      hopt i hi]
+
+namespace C17Example
+/-- graph of a three-partition collection: sources 0,1,2; outputs 10,11,12 (12 also reads 11); 20 unused -/
+def G3 : Graph Nat
+  | 0 => some (.const [⟨1, 0, 5⟩])
+  | 1 => some (.const [⟨2, 0, 6⟩])
+  | 2 => some (.const [⟨3, 0, 7⟩])
+  | 10 => some (.alias 0)
+  | 11 => some (.alias 1)
+  | 12 => some (.concat [11, 2] false)
+  | 20 => some (.alias 0)
+  | _ => none
+def out3 (i : Nat) : Nat := 10 + i
+def keep3 (k : Nat) : Bool := k != 20
+def okAll : V → Bool := fun _ => true
+def okNone : V → Bool := fun _ => false
+/-- `from_delayed(x.to_delayed(optimize_graph=True), verify_meta=True)` -/
+def fd3 : FromDelayed Nat :=
+  { dfs := toDelayed G3 out3 3 true keep3, userDivisions := none, verifyMeta := true, partitions := none }
+example : fromDelayed (toDelayed G3 out3 3 true keep3) .none true = .ok fd3 := rfl
+example : run (stdInterp okAll) fd3.graph (liftB (fun _ => none)) 4 (.out 2)
+    = .frame [⟨2, 0, 6⟩, ⟨3, 0, 7⟩] := by decide
+example : run (stdInterp okNone) fd3.graph (liftB (fun _ => none)) 4 (.out 2) = .err := by decide
+example : BoundaryInterp (stdInterp okAll) okAll := ⟨fun _ => rfl, fun _ => rfl⟩
+/-- the culled graph really lost the unused key, the re-imported one has the renamed keys and all popped keys but… -/
+example : fd3.graph (.orig 20) = none ∧ (fd3.graph (.wrap 12)).isSome ∧ (fd3.graph (.orig 12)).isSome := by decide
+/-- one partition: the Delayed's own key is popped and not re-added by any other layer -/
+def fd1 : FromDelayed Nat :=
+  { dfs := toDelayed G3 out3 1 false keep3, userDivisions := none, verifyMeta := false, partitions := none }
+example : fd1.graph (.orig 10) = none ∧ (fd1.graph (.orig 20)).isSome ∧
+    run (stdInterp okAll) fd1.graph (liftB (fun _ => none)) 3 (.out 0) = .frame [⟨1, 0, 5⟩] := by decide
+/-- a partition selection pushed into `_partitions` -/
+def fdSel : FromDelayed Nat := { fd3 with partitions := some [2, 0] }
+example : run (stdInterp okAll) fdSel.graph (liftB (fun _ => none)) 4 (.out 0) = .frame [⟨2, 0, 6⟩, ⟨3, 0, 7⟩]
+    ∧ fdSel.divisions = .ok [none, none, none] ∧ fdSel.npartitions = 2 := ⟨by decide, rfl, rfl⟩
+end C17Example
+
+/-! ### (b) persist -/
+
+/-- the graph embedded by `persist` maps keys to *values*: every task is a literal … -/
+theorem C17_persist_literals {κ} [DecidableEq κ] (out : Nat → κ) (n : Nat) (divs : Divs) (res : Nat → V)
+    (k : κ) (t : Tsk κ) (h : (persist out n divs res).layer k = some t) : ∃ rows, t = .const rows :=
+  persistedLayer_literal out n res k t h
+
+/-- … every output key of the persisted collection is mapped to its computed partition, nothing else is defined -/
+theorem C17_persist_outputs {κ} [DecidableEq κ] (out : Nat → κ) (n : Nat) (divs : Divs) (res : Nat → V)
+    (hres : ∀ i j, out i = out j → res i = res j) :
+    (∀ i rows, i < n → res i = .frame rows → (persist out n divs res).layer (out i) = some (.const rows)) ∧
+    (∀ k, (∀ i, i < n → out i ≠ k) → (persist out n divs res).layer k = none) := by
+  refine ⟨?_, ?_⟩
+  · intro i rows hi hrows
+    obtain ⟨j, _, hoj, hpl⟩ := persistedLayer_out out n res i hi
+    simp only [persist]
+    rw [hpl, hres j i hoj, hrows]; rfl
+  · intro k hk
+    exact persistedLayer_foreign out n res k hk
+
+/-- the key listing, the partition count and the divisions operand are taken over unchanged, and every key that
+    `__dask_keys__` reports is defined by `FromGraph._layer` (given that the persisted state's divisions have
+    `npartitions + 1` entries — C06) -/
+theorem C17_persist_structure {κ} [DecidableEq κ] (out : Nat → κ) (n : Nat) (divs : Divs) (res : Nat → V)
+    (hdiv : divs.length = n + 1) :
+    (persist out n divs res).keys = (List.range n).map out ∧
+    (persist out n divs res).divisions = divs ∧
+    (persist out n divs res).npartitions = n ∧
+    (persist out n divs res).daskKeys = (List.range n).map Sum.inr ∧
+    ∀ k ∈ (persist out n divs res).daskKeys, ((persist out n divs res).graph k).isSome := by
+  have hn : (persist out n divs res).npartitions = n := by simp [FromGraph.npartitions, persist, hdiv]
+  refine ⟨rfl, rfl, hn, by simp [FromGraph.daskKeys, hn], ?_⟩
+  intro k hk
+  simp only [FromGraph.daskKeys, hn, List.mem_map, List.mem_range] at hk
+  obtain ⟨i, hi, rfl⟩ := hk
+  simp [FromGraph.graph, fromGraphLayer, persist, hi]
+
+/-- partition `i` of the persisted collection evaluates to the computed partition -/
+theorem C17_persist_value {κ} [DecidableEq κ] (I : Interp) (out : Nat → κ) (n : Nat) (divs : Divs) (res : Nat → V)
+    (hres : ∀ i j, out i = out j → res i = res j) (inp₀ : κ → Option V) (i : Nat) (hi : i < n) (rows : List Row)
+    (hrows : res i = .frame rows) (m : Nat) :
+    run I (persist out n divs res).graph (liftInp inp₀) (m+2) (.inr i) = res i := by
+  have hk : (persist out n divs res).keys[i]? = some (out i) := by simp [persist, hi]
+  rw [FromGraph.graph, C17_alias I _ _ inp₀ (m+1) i (out i) hk,
+      run_defined I _ _ m _ _ ((C17_persist_outputs out n divs res hres).1 i rows hi hrows), hrows]
+  rfl
+
+/-- **persist is transparent**: for every upper graph `U` (the remaining operations; its references to partition
+    `i` of the cut collection are `Sum.inr i`), every key of `U` has the same value when `U` is stacked on the
+    original lower graph `g₁` (keys `out i`) and when it is stacked on `FromGraph(persisted values)` (keys
+    `(new name, i)`), where the persisted values are the values of the output keys in `g₁`.
+    (`B` bounds the ranks of the output keys: the fuel with which they were computed.) -/
+theorem C17_persist_transparent {κ υ} [DecidableEq κ] (I : Interp) (g₁ : Graph κ) (inp : κ → Option V)
+    (rank₁ : κ → Nat) (hr₁ : Ranked g₁ rank₁) (out : Nat → κ) (n : Nat) (divs : Divs)
+    (U : Graph (υ ⊕ Nat)) (urank : υ → Nat)
+    (hU : ∀ u t, U (.inl u) = some t → ∀ u', Sum.inl u' ∈ t.refs → (U (.inl u')).isSome → urank u' < urank u)
+    (hdep : ∀ u t, U (.inl u) = some t → ∀ i, Sum.inr i ∈ t.refs → i < n)
+    (B : Nat) (hB : ∀ i, i < n → rank₁ (out i) < B)
+    (hfr : ∀ i, i < n → ∃ rows, run I g₁ inp B (out i) = .frame rows)
+    (inp₀ : κ → Option V) (m : Nat) (u : υ) (hm : urank u < m) :
+    run I (stack g₁ out U) (stackInp inp) (m + B) (.inr u)
+      = run I (stack (persist out n divs (fun i => run I g₁ inp B (out i))).graph Sum.inr U)
+          (stackInp (liftInp inp₀)) (m + 2) (.inr u) :=
+  run_stack_persist I g₁ inp rank₁ hr₁ out n divs U urank hU hdep B hB hfr inp₀ m u hm
+
+/-- `C17_cut` instantiated with the real key structure: a stack is `toolz.merge(lower, upper)`, the cut between
+    the collection's layer(s) and the operations built on it satisfies `CutOK`, hence the stacked query evaluates
+    as its upper part on the materialised values of the lower part — for the original collection and, identically,
+    for the `FromGraph` that `persist` / `from_legacy_dataframe` builds. -/
+theorem C17_cut_stack {lam υ} (I : Interp) (L : Graph lam) (o : Nat → lam) (U : Graph (υ ⊕ Nat))
+    (inp : lam ⊕ υ → Option V) (rank : lam ⊕ υ → Nat) (hr : Ranked (stack L o U) rank)
+    (n : Nat) (u : υ) (hu : (U (.inl u)).isSome) (hn : rank (.inr u) < n) :
+    run I (stack L o U) inp n (.inr u)
+      = run I (stackUpper o U) (cutInp I (stackLower L) inp rank) n (.inr u) := by
+  rw [stack_eq_gunion] at hr ⊢
+  refine C17_cut I _ _ inp rank hr (stack_cutOK L o U) n (.inr u) ?_ hn
+  cases h : U (.inl u) with
+  | none => simp [h] at hu
+  | some t => simp [stackUpper, h]
+
+namespace C17Example
+/-- remaining operations: concat of partitions 2 and 0 of the cut collection, then an alias -/
+def U2 : Graph (Nat ⊕ Nat)
+  | .inl 0 => some (.concat [.inr 2, .inr 0] false)
+  | .inl 1 => some (.alias (.inl 0))
+  | _ => none
+def res3 (i : Nat) : V := run (stdInterp okAll) G3 (fun _ => none) 3 (out3 i)
+example : run (stdInterp okAll) (stack G3 out3 U2) (stackInp (fun _ => none)) 5 (.inr 1)
+    = .frame [⟨2, 0, 6⟩, ⟨3, 0, 7⟩, ⟨1, 0, 5⟩] := by decide
+example : run (stdInterp okAll) (stack (persist out3 3 [some 0, some 2, some 3, some 3] res3).graph Sum.inr U2)
+    (stackInp (liftInp (fun _ => none))) 5 (.inr 1) = .frame [⟨2, 0, 6⟩, ⟨3, 0, 7⟩, ⟨1, 0, 5⟩] := by decide
+example : (persist out3 3 [some 0, some 2, some 3, some 3] res3).layer 12 = some (.const [⟨2, 0, 6⟩, ⟨3, 0, 7⟩])
+    ∧ (persist out3 3 [some 0, some 2, some 3, some 3] res3).layer 0 = none
+    ∧ (persist out3 3 [some 0, some 2, some 3, some 3] res3).npartitions = 3 := ⟨rfl, rfl, rfl⟩
+end C17Example
+
+/-! ### legacy round trip: `from_legacy_dataframe(x.to_legacy_dataframe())` is `FromGraph` of the (culled) graph -/
+
+/-- structure and values of the legacy round trip (`G`, `out`, `divs` of `x.optimize()`; `optimize` is
+    `from_legacy_dataframe`'s flag): divisions taken over, partition count `len(divisions) - 1`, every reported key
+    defined, partition `i` has the value of `out i` in `G`. -/
+theorem C17_legacy_roundtrip {κ} (I : Interp) (G : Graph κ) (out : Nat → κ) (divs : Divs) (optimize : Bool)
+    (keep : κ → Bool) (hc : CullOK G keep ((List.range (divs.length - 1)).map out)) (inp : κ → Option V) :
+    (legacyRoundtrip G out divs optimize keep).divisions = divs ∧
+    (legacyRoundtrip G out divs optimize keep).npartitions = divs.length - 1 ∧
+    (∀ k ∈ (legacyRoundtrip G out divs optimize keep).daskKeys,
+        ((legacyRoundtrip G out divs optimize keep).graph k).isSome) ∧
+    ∀ i, i < divs.length - 1 → ∀ m,
+      run I (legacyRoundtrip G out divs optimize keep).graph (liftInp inp) (m+1) (.inr i) = run I G inp m (out i) := by
+  refine ⟨rfl, rfl, ?_, ?_⟩
+  · intro k hk
+    simp only [FromGraph.daskKeys, FromGraph.npartitions, legacyRoundtrip, List.mem_map, List.mem_range] at hk
+    obtain ⟨i, hi, rfl⟩ := hk
+    simp [FromGraph.graph, fromGraphLayer, legacyRoundtrip, hi]
+  · intro i hi m
+    have hk : (legacyRoundtrip G out divs optimize keep).keys[i]? = some (out i) := by
+      simp [legacyRoundtrip, hi]
+    rw [FromGraph.graph, C17_alias I _ _ inp m i (out i) hk]
+    cases optimize with
+    | false => rfl
+    | true =>
+      exact run_cull I G keep _ inp hc m (out i)
+        (hc.roots_kept (out i) (List.mem_map.mpr ⟨i, by simpa using hi, rfl⟩))
+
+namespace C17Example
+example : run (stdInterp okAll) (legacyRoundtrip G3 out3 [none, none, none, none] true keep3).graph
+    (liftInp (fun _ => none)) 4 (.inr 2) = .frame [⟨2, 0, 6⟩, ⟨3, 0, 7⟩]
+    ∧ (legacyRoundtrip G3 out3 [none, none, none, none] true keep3).layer 20 = none
+    ∧ ((legacyRoundtrip G3 out3 [none, none, none, none] false keep3).layer 20).isSome := by decide
+example : CullOK G3 keep3 ((List.range 3).map out3) := by
+  refine ⟨by decide, ?_⟩
+  intro k t hk hg r hr
+  unfold G3 at hg
+  split at hg
+  all_goals (try (cases hg; done))
+  all_goals (try (simp only [Option.some.injEq] at hg))
+  all_goals (try subst hg)
+  all_goals (try (simp [Tsk.refs] at hr))
+  all_goals (try (rcases hr with rfl | rfl))
+  all_goals (try subst hr)
+  all_goals (try rfl)
+end C17Example
+
+/-! ### (c) partition structure reported by the boundary constructs -/
+
+/-- `FromGraph`: divisions are the operand; the partition count is `len(divisions) - 1`; when the key list has that
+    length (persist, from_legacy_dataframe: C17_persist_structure / C17_legacy_roundtrip) every reported key is an
+    alias of the listed key. -/
+theorem C17_fromGraph_structure {κ} (e : FromGraph κ) (h : e.keys.length = e.npartitions) (i : Nat)
+    (hi : i < e.npartitions) :
+    ∃ k, e.keys[i]? = some k ∧ e.graph (.inr i) = some (.alias (.inl k)) ∧ Sum.inr i ∈ e.daskKeys := by
+  have hi' : i < e.keys.length := by omega
+  refine ⟨e.keys[i], by simp [hi'], by simp [FromGraph.graph, fromGraphLayer, hi'], ?_⟩
+  simp [FromGraph.daskKeys, hi]
+
+/-- `to_delayed`: one Delayed per partition, the `i`-th one has the `i`-th output key — both variants -/
+theorem C17_toDelayed_keys {κ} (G : Graph κ) (out : Nat → κ) (n : Nat) (og : Bool) (keep : κ → Bool) :
+    (toDelayed G out n og keep).length = n ∧
+    (toDelayed G out n og keep).map Delayed.key = (List.range n).map out := by
+  refine ⟨toDelayed_length G out n og keep, ?_⟩
+  simp [toDelayed, List.map_map, Function.comp_def]
+
+/-- `from_delayed`: an accepted call reports `len(dfs)` partitions; its divisions are the ones passed along, or
+    "unknown with the right length" (`(None,) * (len(dfs) + 1)`) when none were passed. -/
+theorem C17_fromDelayed_divisions {κ} (dfs : List (Delayed κ)) (a : DivArg) (verify : Bool) (e : FromDelayed κ)
+    (he : fromDelayed dfs a verify = .ok e) :
+    e.npartitions = dfs.length ∧ e.daskKeys = (List.range dfs.length).map BKey.out ∧
+    (∀ d, a = .given d → e.divisions = .ok d ∧ d.length = dfs.length + 1) ∧
+    (a = .none → e.divisions = .ok (unknownDivs dfs.length) ∧ (unknownDivs dfs.length).length = dfs.length + 1) := by
+  obtain ⟨_, h1, _, h4, h5⟩ := fromDelayed_ok dfs a verify e he
+  have hn : e.npartitions = dfs.length := by
+    simp [FromDelayed.npartitions, fromDelayed_sel dfs a verify e he]
+  refine ⟨hn, by simp [FromDelayed.daskKeys, hn], ?_, ?_⟩
+  · intro d hd
+    rcases h5 with ⟨ha, _⟩ | ⟨d', ha, hl, hu⟩
+    · rw [ha] at hd; cases hd
+    · rw [ha] at hd; cases hd
+      exact ⟨by simp [FromDelayed.divisions, h4, FromDelayed.fullDivisions, hu], hl⟩
+  · intro ha
+    rcases h5 with ⟨_, hu⟩ | ⟨d', ha', _, _⟩
+    · exact ⟨by simp [FromDelayed.divisions, h4, FromDelayed.fullDivisions, hu, h1], by simp [unknownDivs]⟩
+    · rw [ha] at ha'; cases ha'
+
+/-- `from_delayed` refuses — with an explicit error, never with a collection — an empty list, `divisions="sorted"`
+    and a divisions tuple of the wrong length -/
+theorem C17_fromDelayed_rejects {κ} (dfs : List (Delayed κ)) (verify : Bool) :
+    (dfs = [] → ∀ a, fromDelayed dfs a verify = .error .noDelayed) ∧
+    (dfs ≠ [] → fromDelayed dfs .sorted verify = .error .sorted) ∧
+    (dfs ≠ [] → ∀ d : Divs, d.length ≠ dfs.length + 1 → fromDelayed dfs (.given d) verify = .error .divLen) := by
+  refine ⟨?_, ?_, ?_⟩
+  · intro h a; simp [fromDelayed, h]
+  · intro h
+    have : dfs.length ≠ 0 := by simpa using h
+    simp [fromDelayed, this]
+  · intro h d hd
+    have : dfs.length ≠ 0 := by simpa using h
+    simp [fromDelayed, this, hd]
+
+/-- the delayed round trip as a whole: passing `x.divisions` (which has `n + 1` entries) along is accepted and
+    reported back unchanged; passing nothing reports `n` partitions with unknown divisions -/
+theorem C17_delayed_roundtrip_structure {κ} (G : Graph κ) (out : Nat → κ) (n : Nat) (hn : n ≠ 0) (og : Bool)
+    (keep : κ → Bool) (verify : Bool) (divs : Divs) (hdiv : divs.length = n + 1) :
+    (∃ e, fromDelayed (toDelayed G out n og keep) (.given divs) verify = .ok e ∧
+        e.divisions = .ok divs ∧ e.npartitions = n) ∧
+    (∃ e, fromDelayed (toDelayed G out n og keep) .none verify = .ok e ∧
+        e.divisions = .ok (unknownDivs n) ∧ e.npartitions = n) := by
+  have hl := toDelayed_length G out n og keep
+  refine ⟨?_, ?_⟩
+  · have hok : fromDelayed (toDelayed G out n og keep) (.given divs) verify
+        = .ok { dfs := toDelayed G out n og keep, userDivisions := some divs, verifyMeta := verify,
+                partitions := none } := by
+      simp [fromDelayed, hl, hn, hdiv]
+    obtain ⟨h1, _, h3, _⟩ := C17_fromDelayed_divisions _ _ _ _ hok
+    exact ⟨_, hok, (h3 divs rfl).1, by rw [h1, hl]⟩
+  · have hok : fromDelayed (toDelayed G out n og keep) .none verify
+        = .ok { dfs := toDelayed G out n og keep, userDivisions := none, verifyMeta := verify,
+                partitions := none } := by
+      simp [fromDelayed, hl, hn]
+    obtain ⟨h1, _, _, h4⟩ := C17_fromDelayed_divisions _ _ _ _ hok
+    exact ⟨_, hok, by have h := (h4 rfl).1; rw [hl] at h; exact h, by rw [h1, hl]⟩
+
+namespace C17Example
+example : (fromDelayed (toDelayed G3 out3 3 false keep3) (.given [some 0, some 2, some 3, some 3]) true).map
+    (fun e => (e.divisions, e.npartitions)) = .ok (.ok [some 0, some 2, some 3, some 3], 3) := rfl
+example : fromDelayed (toDelayed G3 out3 3 false keep3) (.given [some 0, some 3]) true = .error .divLen := rfl
+example : fromDelayed (toDelayed G3 out3 0 false keep3) .none true = .error .noDelayed := rfl
+example : fromDelayed (toDelayed G3 out3 3 false keep3) .sorted true = .error .sorted := rfl
+end C17Example
+
+/-! ### (d) `verify_meta` -/
+
+/-- the wrapper emitted for `verify_meta=True` is the identity on a value whose schema matches … -/
+theorem C17_verify_meta_identity (ok : V → Bool) (v : V) (h : ok v = true) : wrapSpec ok true v = v := by
+  simp [wrapSpec, checkMetaSpec, h]
+
+/-- … an explicit error on any other value … -/
+theorem C17_verify_meta_error (ok : V → Bool) (v : V) (h : ok v = false) : wrapSpec ok true v = .err := by
+  simp [wrapSpec, checkMetaSpec, h]
+
+/-- … so no value is ever silently changed, with or without verification -/
+theorem C17_verify_meta_no_silent_change (ok : V → Bool) (verify : Bool) (v : V) :
+    wrapSpec ok verify v = v ∨ wrapSpec ok verify v = .err := by
+  cases verify
+  · left; rfl
+  · cases h : ok v
+    · right; simp [wrapSpec, checkMetaSpec, h]
+    · left; simp [wrapSpec, checkMetaSpec, h]
+
+/-- the modelled decision of `check_meta`: pass-through unchanged or `ValueError`, decided by `metaMatches` -/
+theorem C17_checkMeta_decision {α} (mt x : Sch) (v : α) :
+    (metaMatches mt x = true ∧ checkMeta mt x v = .ok v) ∨
+    (metaMatches mt x = false ∧ checkMeta mt x v = .error .mismatch) := by
+  cases h : metaMatches mt x
+  · right; simp [checkMeta, h]
+  · left; simp [checkMeta, h]
+
+theorem equalDtypes_self (a : DType) : equalDtypes (some a) (some a) = true := by
+  cases a with
+  | num i => rfl
+  | other i => simp [equalDtypes]
+  | cat c => cases c <;> simp [equalDtypes]
+
+theorem lookup_isSome_of_mem (l : List (String × DType)) (p : String × DType) (hp : p ∈ l) :
+    (l.lookup p.1).isSome = true := by
+  induction l with
+  | nil => cases hp
+  | cons q t ih =>
+    simp only [List.lookup]
+    by_cases hq : p.1 = q.1
+    · simp [hq]
+    · have hb : (p.1 == q.1) = false := by simp [hq]
+      rw [hb]
+      rcases List.mem_cons.mp hp with he | he
+      · exact absurd (by rw [he]) hq
+      · exact ih he
+
+/-- a partition whose schema is the declared one always passes (DataFrame meta) -/
+theorem C17_metaMatches_refl (mt : Sch) (h : mt.kind = 0) : metaMatches mt mt = true := by
+  simp only [metaMatches, h, ne_eq, not_true_eq_false, if_false, if_true, Bool.and_eq_true, List.all_eq_true,
+    beq_self_eq_true, and_true]
+  intro c hc
+  have hc' : c ∈ mt.cols.map Prod.fst := by simpa using hc
+  obtain ⟨p, hp, rfl⟩ := List.mem_map.mp hc'
+  have hs := lookup_isSome_of_mem mt.cols p hp
+  cases hl : mt.cols.lookup p.1 with
+  | some a => exact equalDtypes_self a
+  | none => rw [hl] at hs; cases hs
+
+namespace C17Example
+def metaAB : Sch := ⟨0, [("a", .num 0), ("b", .other 3)]⟩
+example : metaMatches metaAB ⟨0, [("a", .num 1), ("b", .other 3)]⟩ = true := by decide      -- int vs float
+example : metaMatches metaAB ⟨0, [("b", .other 3), ("a", .num 0)]⟩ = false := by decide     -- column order
+example : metaMatches metaAB ⟨0, [("a", .num 0)]⟩ = false := by decide                       -- missing column
+example : metaMatches metaAB ⟨1, [("a", .num 0)]⟩ = false := by decide                       -- Series for a frame
+example : checkMeta metaAB ⟨0, [("a", .num 0), ("b", .other 4)]⟩ (5 : Nat) = .error .mismatch := rfl
+example : wrapSpec okAll true (.frame [⟨1, 0, 5⟩]) = .frame [⟨1, 0, 5⟩] := by decide
+example : wrapSpec okNone true (.frame [⟨1, 0, 5⟩]) = .err := by decide
 end C17Example
 
 end Dx
